@@ -114,14 +114,19 @@ Section Bbs.
   Definition compute_B (g : generators) (Q1 : G1t) (H : list G1t) (domain : Fd) (ms : list Fd) : G1t :=
     msm_acc (g_p1 g +g Q1 *g domain) H ms.
 
-  Definition core_sign (sk : Fd) (pk : G2t) (g : generators) (header : option bytes)
-             (ms : list Fd) (api_id : bytes) : outcome signature :=
+  (* the deterministic part of core_sign: the exponent e and the point B *)
+  Definition core_sign_eB (sk : Fd) (pk : G2t) (g : generators) (header : option bytes)
+             (ms : list Fd) (api_id : bytes) : outcome (Fd * G1t) :=
     if negb (Nat.eqb (length (g_values g)) (length ms + 1)) then Err else
     let* Q1 := index (g_values g) 0 in
     let H := skipn 1 (g_values g) in
     let* domain := calculate_domain pk Q1 H header api_id in
     let* e := hash_to_scalar (serialize_scalars (sk :: ms ++ [domain])) (api_id ++ c_h2s c) in
-    let B := compute_B g Q1 H domain ms in
+    Ok (e, compute_B g Q1 H domain ms).
+
+  Definition core_sign (sk : Fd) (pk : G2t) (g : generators) (header : option bytes)
+             (ms : list Fd) (api_id : bytes) : outcome signature :=
+    let* (e, B) := core_sign_eB sk pk g header ms api_id in
     let* inv := unwrap (finv_opt (sk +f e)) in
     let A := B *g inv in
     if g1_eqb P A (g1_zero P) then Err else Ok {| sig_A := A; sig_e := e |}.
@@ -135,6 +140,13 @@ Section Bbs.
     let B := compute_B g Q1 H domain ms in
     let A2 := g2_add P pk (g2_mul_gen P (sig_e s)) in
     if pairing_eq P (sig_A s) A2 B (g2_mul_gen P (f1 S)) then Ok tt else Err.
+
+  Definition sign_eB (msgs : option (list bytes)) (sk : Fd) (pk : G2t) (header : option bytes)
+    : outcome (Fd * G1t) :=
+    let msgs := option_default [] msgs in
+    let* ms := messages_to_scalars msgs (c_api_id c) in
+    let* g := gens_create (length msgs + 1) (c_api_id c) in
+    core_sign_eB sk pk g header ms (c_api_id c).
 
   Definition sign (msgs : option (list bytes)) (sk : Fd) (pk : G2t) (header : option bytes)
     : outcome signature :=
